@@ -145,6 +145,10 @@ func c09(c *an.Check) {
 			return s.NonNil(an.ErrResult(r0, -1)), "rwc.Read failed"
 		}})
 	}
+	// a buffer handed back to the arena is not touched again (another WriteTo / the pump may already own it)
+	if n := c.NotUsedAfterRelease("OWNERSHIP", "rwc arena buffers are not used after release", c.P.PkgFuncs("util/rwc")); n < 3 {
+		c.Undecided("OWNERSHIP", "rwc arena buffers are not used after release", nil, fmt.Sprintf("only %d arena releases found (anchor drift)", n))
+	}
 	pumpCloses(c, rx, T)
 	// Write: loops until everything is written or an error occurs
 	var writes []*ssa.Call
